@@ -548,6 +548,15 @@ func (p *prover) lenFacts(v ssa.Value) {
 			}
 		}
 	case *ssa.Extract:
+		// the token of a bufio.SplitFunc-style scanner called at end of input on non-empty data is not empty
+		if call, ok := x.Tuple.(*ssa.Call); ok && x.Index == 1 && advanceFuncs[CalleeName(call)] && len(call.Call.Args) == 2 {
+			if isBoolConst(call.Call.Args[1], true) {
+				p.lenFacts(call.Call.Args[0])
+				if p.g.prove("0", lenKey(p.canon(call.Call.Args[0])), -1) {
+					ge(term{"0", 1, true})
+				}
+			}
+		}
 		// value of a comma-ok lookup in a package-level map literal: m[k] -> []T of known minimum length
 		if lk, ok := x.Tuple.(*ssa.Lookup); ok && x.Index == 0 {
 			if n, ok := p.c.mapLiteralMinLen(lk.X); ok {
